@@ -116,7 +116,7 @@ func runC08(c *core.Ctx) int {
 		b := mkBase(v)
 		bases = append(bases, b)
 		for _, n := range allCheckNames {
-			for _, f := range []string{"checks-disabled", "flag-disabled", "rule-disable", "flag-enabled", "checks-enabled"} {
+			for _, f := range []string{"checks-disabled", "flag-disabled", "rule-disable", "flag-enabled", "checks-enabled", "offline+flag-enabled", "offline+flag-disabled"} {
 				jobs = append(jobs, job{b, c08Case{Variant: v, Name: n, Form: f}})
 			}
 		}
@@ -165,6 +165,23 @@ func runC08(c *core.Ctx) int {
 		case "checks-enabled":
 			extra = fmt.Sprintf("checks {\n  enabled = [%q]\n}\n", n)
 			want = multiset(b.r0, func(r core.DReport) bool { return r.Reporter == n || notChecks(r) })
+		case "offline+flag-enabled", "offline+flag-disabled":
+			// flags combine: --offline removes every online check whatever else is on the command line
+			isOnline := func(name string) bool {
+				for _, o := range onlineCheckNames {
+					if name == o {
+						return true
+					}
+				}
+				return false
+			}
+			if cs.Form == "offline+flag-enabled" {
+				global = []string{"--offline", "--enabled", n}
+				want = multiset(b.r0, func(r core.DReport) bool { return !isOnline(r.Reporter) && (r.Reporter == n || notChecks(r)) })
+			} else {
+				global = []string{"--disabled", n, "--offline"}
+				want = multiset(b.r0, func(r core.DReport) bool { return !isOnline(r.Reporter) && r.Reporter != n })
+			}
 		case "offline":
 			global = []string{"--offline"}
 			want = multiset(b.r0, func(r core.DReport) bool {
@@ -206,6 +223,28 @@ func runC08(c *core.Ctx) int {
 		// documented override: rule{enable=[N]} beats the global disabled list, so for such names the
 		// global forms say nothing about N's own reports (don't-care); every other reporter must be unchanged
 		switch cs.Form {
+		case "offline+flag-enabled", "offline+flag-disabled":
+			// same don't-care as for the plain offline forms: reports of checks named in a rule{enable} list
+			keepW := map[string]int{}
+			for k, v := range want {
+				keepW[k] = v
+			}
+			drop := func(m map[string]int) map[string]int {
+				out := map[string]int{}
+				for k, v := range m {
+					skip := false
+					for _, e := range scenarioEnableList(b.variant) {
+						if strings.Contains(k, "|"+e+"|") {
+							skip = true
+						}
+					}
+					if !skip {
+						out[k] = v
+					}
+				}
+				return out
+			}
+			want, gotSet = drop(keepW), drop(gotSet)
 		case "checks-disabled", "flag-disabled":
 			if enableListed(n) {
 				want = multiset(b.r0, func(r core.DReport) bool { return r.Reporter != n })
@@ -305,7 +344,7 @@ func runC08(c *core.Ctx) int {
 		run.Count("floor_reporters_failed", 1)
 	}
 	code := run.Finish("exploration",
-		"per base configuration (instantiates every configurable check kind plus all base checks against an engine-backed fake Prometheus; variants add locked blocks, enable lists and server tags): one reference run, then for EVERY check name (27, exhaustive) the five switch forms checks{disabled}, --disabled, rule{disable}, --enabled, checks{enabled}, plus --offline vs disabling the online list by name. Oracle: the H1 dump of each run as a multiset must equal the expected slice of the reference run. Non-trivial = name with >=1 report in the reference run; distinct by (form, name, variant class).",
+		"per base configuration (instantiates every configurable check kind plus all base checks against an engine-backed fake Prometheus; variants add locked blocks, enable lists and server tags): one reference run, then for EVERY check name (27, exhaustive) the five switch forms checks{disabled}, --disabled, rule{disable}, --enabled, checks{enabled}, the combinations --offline --enabled N and --disabled N --offline, plus --offline vs disabling the online list by name. Oracle: the H1 dump of each run as a multiset must equal the expected slice of the reference run. Non-trivial = name with >=1 report in the reference run; distinct by (form, name, variant class).",
 		core.Floors{MinEvaluations: int64(len(jobs)), MinNontrivial: 40, MaxInconclusiveFrac: 0.02})
 	if code == core.ExitHeld && len(seen) < minRep {
 		return core.ExitInconclusive
